@@ -98,6 +98,7 @@ func H03b() {
 	f, err := NewFile(FileType(vFileTypes[ti]), NewHeader(V20, true))
 	vAssert(err == nil, "C03.add.newfile")
 	cont := vContainer(f, ti)
+	accBefore, _ := vAccessors(f)
 	L := vConcretize(vInt(0, 2))
 	set := vBool()
 	nilpre := vBool()
@@ -126,6 +127,11 @@ func H03b() {
 	// the message
 	msgv := getMesgAllInvalid(gmn)
 	vHavoc(msgv.Addr().Interface())
+	if gmn == MesgNumFileId {
+		// a file_id repeated in the data section: same type as the file
+		// (another type would change what the accessors return)
+		msgv.Addr().Interface().(*FileIdMsg).Type = FileType(vFileTypes[ti])
+	}
 	mt := msgv.Type()
 	// oracle: which slot hosts it
 	slot := -1
@@ -149,6 +155,11 @@ func H03b() {
 
 	f.add(msgv)
 
+	// the container the accessor returns now (routing a message must not
+	// replace it)
+	accAfter, _ := vAccessors(f)
+	vAssert(accAfter[ti] == accBefore[ti], "C03.add.container-kept")
+	cont = vContainer(f, ti)
 	for i := 0; i < cont.NumField(); i++ {
 		fld := cont.Field(i)
 		if i == slot && !common {
